@@ -91,10 +91,11 @@ const (
 )
 
 var (
-	fullPattern       *regexp.Regexp
-	arrayPattern      *regexp.Regexp
-	pipePattern       *regexp.Regexp
-	topLevelFunctions TopLevelFunction
+	fullPattern         *regexp.Regexp
+	arrayPattern        *regexp.Regexp
+	pipePattern         *regexp.Regexp
+	functionNamePattern = regexp.MustCompile(`^\s*\w+\s*$`)
+	topLevelFunctions   TopLevelFunction
 )
 
 func init() {
@@ -289,7 +290,9 @@ func ParsePipe(match string) ([]*PipeSelector, error) {
 func ParseSelector(selector string) ([]any, error) {
 	functions := strings.SplitN(selector, "=>", 2)
 	slice := make([]any, 0)
-	if len(functions) == 2 {
+	// a top level function is a bare name in front of the first "=>"; any other
+	// "=>" (such as the one of `[keep=>...]`) belongs to the path itself
+	if len(functions) == 2 && functionNamePattern.MatchString(functions[0]) {
 		selector = functions[1]
 		slice = append(slice, TopLevelFunctionSelector(functions[0]))
 	}
